@@ -17,7 +17,7 @@ CONSTANTS MaxCalls,    \* schedule length bound
           Sels         \* argument selectors
 
 Queries  == {"str", "external_references", "contains_reference", "contains_self_reference", "iterate",
-             "is_fully_typed", "eq_hash"}
+             "is_fully_typed", "eq_hash", "get_conjuncts", "get_disjuncts", "sanity_check", "aliases_events", "repr"}
 Copies   == {"cast_same", "cast_narrow", "but_unchanged", "but_lit_num", "but_lit_str", "but_lit_bool", "but_metadata"}
 Rewrites == {"simplify", "split_and", "refactor_reference", "replace_this_with_var", "replace_var_with_this",
              "replace_var_with_literal", "negate", "join_self", "canonical_form", "type_check_references",
